@@ -9,7 +9,7 @@ META = {
     "property_id": "C26",
     "technique": "Lean 4 invariant proof over all schedules of atomic symbol-table operations + certified history checker "
                  "(okSym, soundness theorem) run on histories recorded from concurrent stress runs of value.SymbolTableStruct "
-                 "(race detector in the thorough tier) + sequential correspondence",
+                 "(race detector: 6 runs in the quick tier, 40 in the thorough tier) + sequential correspondence",
     "level_text": "Kernel-checked: for every interleaving of atomic Add/Get/GetName/ExistsId steps by any number of actors the "
                   "name and id tables stay inverse, equal names get equal symbols, distinct names distinct symbols, and every "
                   "symbol's name is recovered (inv_reachable, same_name_same_symbol, distinct_names_distinct_symbols, "
@@ -164,13 +164,13 @@ def run(ctx):
         g, n, names = configs[k % len(configs)]
         ok &= stress(ctx, vlib.ELKH, g, n, names, ctx.seed * 100000 + k, False, lockstep=(k % 2 == 1))
     ctx.obligation(f"stress: okSym accepts the histories of {runs} concurrent runs (G up to 64)", ok, "history-check")
-    if not ctx.quick:
+    if True:          # a small sample under the race detector in the quick tier too (6 runs), 40 in the thorough tier
         built, log = vlib.build_harness(race=True)
         if not built:
             ctx.obligation("go build -race of the harness", False, "build", log[-600:])
         else:
             okr = True
-            for k in range(40):
+            for k in range(ctx.n(6, 40)):
                 g, n, names = configs[k % len(configs)]
                 okr &= stress(ctx, vlib.ELKH + "-race", g, n, names, ctx.seed * 100000 + 5000 + k, True, lockstep=(k % 2 == 1))
-            ctx.obligation("stress under the race detector: no data race reported, okSym accepts (40 runs)", okr, "race")
+            ctx.obligation("stress under the race detector: no data race reported, okSym accepts (%d runs)" % ctx.n(6, 40), okr, "race")
